@@ -28,11 +28,12 @@ DEMO_PKG=$(dirname $DEMO_REL)
 cp $DEMO_SRC $S/$DEMO_REL 2>/dev/null || cp $DEMO_SRC $S/
 DEMO_RUN=$(grep -o '^func Test[A-Za-z0-9_]*' $DEMO_SRC | sed 's/func //' | paste -sd'|')
 res() { echo "$1" >> $S/result.txt; echo "$1"; }
+RACE=""; [ "$ID" = "C40" ] && RACE="-race"
 # demo without the change
-(cd $S && go test -count=1 -vet=off -run "^($DEMO_RUN)\$" ./$DEMO_PKG > $S/demo_without.log 2>&1); rc_without=$?
+(cd $S && go test $RACE -count=1 -vet=off -run "^($DEMO_RUN)\$" ./$DEMO_PKG > $S/demo_without.log 2>&1); rc_without=$?
 (cd $S && patch -p1 -s < $O/patch.diff) || { res "PATCH-FAILED"; }
 (cd $S && go build ./... > $S/build.log 2>&1); rc_build=$?
-(cd $S && go test -count=1 -vet=off -run "^($DEMO_RUN)\$" ./$DEMO_PKG > $S/demo_with.log 2>&1); rc_with=$?
+(cd $S && go test $RACE -count=1 -vet=off -run "^($DEMO_RUN)\$" ./$DEMO_PKG > $S/demo_with.log 2>&1); rc_with=$?
 res "demo_without_rc=$rc_without demo_with_rc=$rc_with build_rc=$rc_build demo=$DEMO_REL run=$DEMO_RUN"
 # our checks on the changed tree
 CHK=""
